@@ -20,7 +20,7 @@ INFO = {
 LIQ = "lending_account_liquidate"
 
 
-def run(ctx):
+def _run(ctx):
     prog = ctx.prog
     try:
         ix = ctx.ix("C05.R1", LIQ)
@@ -331,3 +331,12 @@ def run(ctx):
         sd = [c for c in (f.cons if f else []) if c.kind == "seeds"]
         ok = bool(sd) and len(sd[0].seeds) == 2 and sd[0].seeds[0].replace(" ", "").startswith(seed + ".") and sd[0].seeds[1].replace(" ", "").startswith("liab_bank.key()")
         ctx.inst("C05.R6", "pda/" + fld, ok, "%s = PDA[%s, liab_bank]" % (fld, seed), sd[0].seeds if sd else None, "%s:%d" % (st.file, st.line))
+
+
+def run(ctx):
+    from .kernels import check_kernels
+    try:
+        _run(ctx)
+    finally:
+        # numeric kernels this property's formulas rest on, pinned as canonical expression trees
+        check_kernels(ctx, "C05.K", ['calc_amount', 'calc_value'])
